@@ -946,6 +946,57 @@ fn main() {
                 }
             }
         }
+        // the limit of a request is that of its own method AND url, whatever was asked for just before: the same url with
+        // another method, directly one after the other (fresh connections, and one kept-alive connection)
+        let mut same_url = 0u64;
+        if std::env::var("VERIF_REPLAY").is_err() {
+            for (url, exempt_m, other_m) in [("/vmAgentLog", "PUT", "POST"), ("/machine/?comp=telemetrydata", "POST", "PUT"), ("/vmAgentLog", "PUT", "GET")] {
+                for exempt_first in [true, false] {
+                    for keepalive in [false, true] {
+                        let order: [(&str, usize); 2] = if exempt_first { [(exempt_m, 5), (other_m, low + 1)] } else { [(other_m, 5), (exempt_m, low + 1)] };
+                        sport = if sport >= 39000 { 36000 } else { sport + 1 };
+                        let mut conn = w.connect(Some(sport), Some(&rec)).ok();
+                        for (step, (m, len)) in order.iter().enumerate() {
+                            if step == 1 && !keepalive {
+                                if let Some(mut c) = conn.take() {
+                                    c.close();
+                                }
+                                sport = if sport >= 39000 { 36000 } else { sport + 1 };
+                                conn = w.connect(Some(sport), Some(&rec)).ok();
+                            }
+                            let Some(c) = conn.as_mut() else { break };
+                            let body = pattern(*len, 11 + step as u64);
+                            let raw = build_request(m, url, &[("Host", b"metadata")], Some(&body), None);
+                            let cur = w.hosts.ws.cursor();
+                            let _ = c.send_watchful(&raw);
+                            let resp = c.read_response(false, Duration::from_secs(30)).map(|m| m.status());
+                            std::thread::sleep(Duration::from_millis(5));
+                            let bytes = w.hosts.ws.bytes_since(cur);
+                            let got = w.hosts.ws.requests_since(cur);
+                            evals += 1;
+                            same_url += 1;
+                            let is_exempt = *m == exempt_m;
+                            let case = json!({"family": "same-url-other-method", "url": url, "first": [order[0].0, order[0].1], "second": [order[1].0, order[1].1], "keepalive": keepalive, "step": step});
+                            if *len > low && !is_exempt {
+                                nontrivial.insert(case.to_string());
+                                if bytes != 0 {
+                                    res.violation("over-limit-body-relayed:same-url-other-method", &format!("{m} {url} with {len} bytes (limit {low}) directly after {} {url}: {bytes} bytes reached the host", order[0].0), case.clone());
+                                }
+                                if !matches!(resp, Ok(s) if (400..500).contains(&s)) {
+                                    res.violation("over-limit-not-answered-4xx:same-url-other-method", &format!("{:?}", resp), case.clone());
+                                }
+                            } else if !(resp == Ok(200) && got.len() == 1 && got[0].1.body == body) {
+                                res.violation("within-limit-body-not-relayed-intact:same-url-other-method", &format!("{m} {url} with {len} bytes directly after {} {url}: status {:?}, {} requests at host", order[0].0, resp, got.len()), case.clone());
+                            }
+                        }
+                        if let Some(mut c) = conn.take() {
+                            c.close();
+                        }
+                    }
+                }
+            }
+        }
+        res.cov("same_url_other_method_requests", same_url);
         res.cov("uploads_after_failed_uploads", after_failed);
         // keep-alive sequences: every ordered pair of request kinds on one connection; each request
         // is judged by the limit of its own method and URL
@@ -1008,7 +1059,7 @@ fn main() {
                 }
             }
         }
-        res.cov("rule", "body lengths limit-1, limit, limit+1, 2*limit for limit = 102400 on 10 non-exempt (method, URL) pairs incl. near misses of the exempt URLs and of their method tokens (put, Put, post), and for limit = 104857600 on the exempt uploads (thorough: both uploads and their upper-case variants, both framings; quick: PUT /vmAgentLog at limit and limit+1 with content-length), each as content-length and as chunked; plus good exempt uploads after 2 / 3 exempt uploads that failed while being read (client gone mid-chunk, malformed chunk size); plus every ordered pair of 8 request kinds (exempt/non-exempt, small/over the low limit, both framings, 64 KiB and 1 KiB chunks) on one keep-alive connection, the second request being judged also after a refused first one when the server keeps the connection; relayed bodies compared by length and SHA-256; non-trivial = over the limit".to_string());
+        res.cov("rule", "body lengths limit-1, limit, limit+1, 2*limit for limit = 102400 on 10 non-exempt (method, URL) pairs incl. near misses of the exempt URLs and of their method tokens (put, Put, post), and for limit = 104857600 on the exempt uploads (thorough: both uploads and their upper-case variants, both framings; quick: PUT /vmAgentLog at limit and limit+1 with content-length), each as content-length and as chunked; plus the same url asked with the exempt and with another method directly one after the other (both orders, fresh and kept-alive connections); plus good exempt uploads after 2 / 3 exempt uploads that failed while being read (client gone mid-chunk, malformed chunk size); plus every ordered pair of 8 request kinds (exempt/non-exempt, small/over the low limit, both framings, 64 KiB and 1 KiB chunks) on one keep-alive connection, the second request being judged also after a refused first one when the server keeps the connection; relayed bodies compared by length and SHA-256; non-trivial = over the limit".to_string());
     }
 
     for p in world::take_panics() {
